@@ -1,7 +1,7 @@
 INIT Init
 NEXT Next
 CONSTANTS
-  Part = "listans"
+  Part = "lnest"
   Big = TRUE
 INVARIANT LawTablesDescriptor
 INVARIANT LawTablesDefaults
